@@ -28,8 +28,13 @@ func ruleFlaggedWindowInvariant(w *World, r *Report) {
 					phis = append(phis, p)
 				}
 			}
-			// candidate slices in the loop body: s[mark : idx-c] under flag == true
-			for b := range l.body {
+			// candidate slices in the loop body: s[mark : idx-c] under flag == true (blocks in function order, so that the
+			// numbering of the obligations is stable)
+			nth := 0
+			for _, b := range fn.Blocks {
+				if !l.body[b] {
+					continue
+				}
 				for _, ins := range b.Instrs {
 					sl, ok := ins.(*ssa.Slice)
 					if !ok || sl.Low == nil || sl.High == nil || !isByteSlice(sl.X.Type()) {
@@ -58,7 +63,8 @@ func ruleFlaggedWindowInvariant(w *World, r *Report) {
 						continue
 					}
 					n++
-					key := fmt.Sprintf("%s: %s[%s:%s-%d] under %s", w.FnKey(fn), stableName(sl.X), mark.Comment, idx.Comment, c, flag.Comment)
+					nth++
+					key := fmt.Sprintf("%s: %s[%s:%s-%d] under %s #%d", w.FnKey(fn), stableName(sl.X), mark.Comment, idx.Comment, c, flag.Comment, nth)
 					bad, nCycles, nFlagged := w.checkFlagInvariant(l, sl.X, idx, mark, flag, c, false)
 					_ = phis
 					if bad != "" {
@@ -210,7 +216,10 @@ func ruleNoByteSkipped(w *World, r *Report) {
 				continue
 			}
 			done := false
-			for b := range l.body {
+			for _, b := range fn.Blocks {
+				if !l.body[b] {
+					continue
+				}
 				for _, ins := range b.Instrs {
 					sl, ok := ins.(*ssa.Slice)
 					if !ok || done || sl.Low == nil || sl.High == nil || !isByteSlice(sl.X.Type()) {
